@@ -67,7 +67,7 @@ pub fn c02(o: &mut O, tier: &str, rng: &mut Rng, prop: u8) {
     }
 }
 
-fn base_plan() -> Plan {
+pub fn base_plan() -> Plan {
     Plan {
         method: "GET".to_string(),
         segments: vec![],
@@ -89,6 +89,9 @@ fn base_plan() -> Plan {
         s3: false,
         fold: false,
         use_date_header: false,
+        date_text: None,
+        scope_override: None,
+        credential_override: None,
     }
 }
 
@@ -132,8 +135,8 @@ fn corpus(o: &mut O, rng: &mut Rng, prop: u8, accept: &Expect) {
 /// C01: the unmutated request is accepted, every single-component mutation is refused.
 pub fn c01(o: &mut O, tier: &str, rng: &mut Rng) {
     let n = match tier {
-        "quick" => 24,
-        "thorough" => 240,
+        "quick" => 10,
+        "thorough" => 200,
         _ => 120,
     };
     let accept = Expect {
